@@ -509,7 +509,16 @@ func (x *ifaceRun) apply(op Op) {
 	}
 }
 
-// enabled lists the operations of alpha that are legal now: SubBalance only up to the balance (the adapter
+// creatable is the precondition under which go-ethereum's EVM calls CreateAccount (core/vm/evm.go create():
+// otherwise ErrContractAddressCollision): no nonce and no code at the address.
+func (x *ifaceRun) creatable(a ethcmn.Address) bool {
+	h := x.r.sdb.GetCodeHash(a)
+	return x.r.sdb.GetNonce(a) == 0 && (h == (ethcmn.Hash{}) || h == emptyCodeHash)
+}
+
+var emptyCodeHash = ethcrypto.Keccak256Hash(nil)
+
+// enabled lists the operations of alpha that are legal now: CreateAccount only where the EVM may call it, SubBalance only up to the balance (the adapter
 // panics below zero, go-ethereum goes negative; the EVM never does it: CanTransfer), SubRefund only up to
 // the refund counter (both panic below zero), RevertToSnapshot for every currently valid snapshot,
 // EndBlock only when the execution owns its chain state.
@@ -517,6 +526,10 @@ func (x *ifaceRun) enabled(alpha []Op, private bool, out []Op) []Op {
 	out = out[:0]
 	for _, op := range alpha {
 		switch op.K {
+		case opCreateAccount:
+			if !x.creatable(ifaceAddrs[op.A]) {
+				continue
+			}
 		case opSubBalance:
 			if x.r.sdb.GetBalance(ifaceAddrs[op.A]).Cmp(big.NewInt(int64(op.V))) < 0 {
 				continue
